@@ -114,6 +114,19 @@ MUTANTS = [
             if self.__class__ is not cls and''',
      "== trusts two already cached hashes (wrong only after both sides were hashed: "
      "history dependent)"),
+    ("c01-hash-placeholder-interrupt-safe", "C01", PRIM,
+     '''                hash_val = hash({attr_tuple})
+
+            object.__setattr__(self, "_hash_value", hash_val)''',
+     '''                object.__setattr__(self, "_hash_value", 0)
+                try:
+                    hash_val = hash({attr_tuple})
+                finally:
+                    object.__delattr__(self, "_hash_value")
+
+            object.__setattr__(self, "_hash_value", hash_val)''',
+     "like the placeholder race, but the placeholder is removed in a finally: an interrupt "
+     "leaves nothing behind, only a second thread pre-empting between the two writes sees it"),
     # ---------------- C05
     ("c05-key-drops-args", "C05", MAP,
      "return (type(expr), expr, args, immutabledict(kwargs))",
@@ -290,6 +303,31 @@ class CachedEvaluationMapper(CachedMapper, EvaluationMapper):
 
             self.cse_name_list.append((cse_name, str_child))""",
      "generic CSE-splitting mix-in reuses CSE<n> names for unprefixed wrappers"),
+    ("c14-register-before-print", "C14", CC,
+     [("""            from pymbolic.mapper.stringifier import PREC_NONE
+            cse_str = self.rec(expr.child, PREC_NONE)
+
+            if expr.prefix is not None:""",
+       """            from pymbolic.mapper.stringifier import PREC_NONE
+
+            if expr.prefix is not None:"""),
+      ("""            for cse_name in generate_cse_names():
+                if cse_name not in self.cse_names:
+                    break
+
+            self.cse_name_list.append((cse_name, cse_str))
+            self.cse_to_name[expr.child] = cse_name
+            self.cse_names.add(cse_name)""",
+       """            for cse_name in generate_cse_names():
+                if cse_name not in self.cse_names:
+                    break
+
+            self.cse_to_name[expr.child] = cse_name
+            self.cse_names.add(cse_name)
+            cse_str = self.rec(expr.child, PREC_NONE)
+            self.cse_name_list.append((cse_name, cse_str))""")], None,
+     "name and child are registered before the child is printed: only an exception in the "
+     "middle of the emission (unsupported node) leaves a registered name without assignment"),
     # ---------------- C12
     ("c12-multiset-to-set", "C12", CSE,
      "            return type(expr), frozenset(kid_count.items())",
